@@ -32,7 +32,7 @@ func vTier() int
 func vSeed() int
 func vAST(ev *Evaluator) grammar.Expression
 func vCalls(suffix string) int
-func vMapOrder(on bool)
+func vMapOrder(mode int)
 func vMonitorStart(roots ...interface{})
 func vMonitorStop() []string
 func vSyncEvents() int
